@@ -78,6 +78,9 @@ type sched struct {
 	mainDone bool
 	done     chan struct{}
 	objs     []stateful
+	// openAnswer: paths for which the environment has answered "out of file descriptors" in this execution;
+	// later opens of the same path get the same answer
+	openAnswer map[string]int
 }
 
 type stateful interface{ stateKey() uint64 }
